@@ -178,6 +178,7 @@ package entry
 //@   ensures distinctCids(e.Refs) ==> sameCids(result.Refs, e.Refs)
 //@   ensures forall j int :: 0 <= j && j < len(e.Next) ==> exists i int :: 0 <= i && i < len(result.Next) && result.Next[i] == e.Next[j]
 //@   ensures forall i int :: 0 <= i && i < len(result.Next) ==> exists j int :: 0 <= j && j < len(e.Next) && result.Next[i] == e.Next[j]
+//@   ensures forall i int :: 0 <= i && i < len(result.Refs) ==> exists j int :: 0 <= j && j < len(e.Refs) && result.Refs[i] == e.Refs[j]
 //@   ensures result.AdditionalData != nil && fresh(result.AdditionalData)
 //@   ensures forall k string :: has(result.AdditionalData, k) == has(e.AdditionalData, k) && (has(e.AdditionalData, k) ==> result.AdditionalData[k] == e.AdditionalData[k])
 //@   loop 0
@@ -212,7 +213,7 @@ package entry
 //@   requires e == nil || e.Clock != nil
 
 // ---- entry.go: creating and writing entries ----
-//@ define sameEntryCore(a iface.IPFSLogEntry, b iface.IPFSLogEntry) = a.LogID == b.LogID && a.Payload == b.Payload && a.V == b.V && a.Key == b.Key && a.Sig == b.Sig && a.Identity == b.Identity && a.Hash == b.Hash && a.Clock.Time == b.Clock.Time && a.Clock.ID == b.Clock.ID && (distinctCids(b.Next) ==> sameCids(a.Next, b.Next)) && (distinctCids(b.Refs) ==> sameCids(a.Refs, b.Refs)) && len(a.Next) <= len(b.Next) && len(a.Refs) <= len(b.Refs)
+//@ define sameEntryCore(a iface.IPFSLogEntry, b iface.IPFSLogEntry) = a.LogID == b.LogID && a.Payload == b.Payload && a.V == b.V && a.Key == b.Key && a.Sig == b.Sig && a.Identity == b.Identity && a.Hash == b.Hash && a.Clock.Time == b.Clock.Time && a.Clock.ID == b.Clock.ID && (distinctCids(b.Next) ==> sameCids(a.Next, b.Next)) && (distinctCids(b.Refs) ==> sameCids(a.Refs, b.Refs)) && len(a.Next) <= len(b.Next) && len(a.Refs) <= len(b.Refs) && (forall i int :: 0 <= i && i < len(a.Refs) ==> exists j int :: 0 <= j && j < len(b.Refs) && a.Refs[i] == b.Refs[j])
 //@ func Normalize
 //@   requires validEntry(e)
 //@   ensures result != nil && fresh(result) && result.Clock != nil && fresh(result.Clock)
@@ -237,4 +238,5 @@ package entry
 //@   ensures [created-entry-keeps-next] err == nil && distinctCids(data.Next) ==> sameCids(result0.Next, data.Next)
 //@   ensures [created-entry-keeps-refs] err == nil && distinctCids(data.Refs) ==> sameCids(result0.Refs, data.Refs)
 //@   ensures [created-entry-has-no-more-refs] err == nil ==> len(result0.Refs) <= len(data.Refs) && len(result0.Next) <= len(data.Next)
+//@   ensures [created-entry-refs-come-from-the-argument] err == nil ==> forall i int :: 0 <= i && i < len(result0.Refs) ==> exists j int :: 0 <= j && j < len(data.Refs) && result0.Refs[i] == data.Refs[j]
 //@   ensures [created-entry-is-signed-by-identity] err == nil ==> result0.Key == identity.PublicKey
